@@ -1525,3 +1525,68 @@ Proof.
 Qed.
 Theorem powmod_neg_no_modulus p a n : n < 0 -> powmod p a n None = ValueErr.
 Proof. intros H. unfold powmod. destruct (Z.eqb_spec n 0); [lia|]. destruct (Z.ltb_spec n 0); [reflexivity|lia]. Qed.
+
+(** ---- invert: correctness (Bezout form) and totality ---- *)
+(** invert is the gcdext loop with the t-cofactor dropped *)
+Lemma invert_loop_gcdext p : forall fuel a b s s1 t t1,
+  invert_loop p fuel a b s s1 =
+  match gcdext_loop p fuel a b s s1 t t1 with Some (g, s', _) => Some (g, s') | None => None end.
+Proof.
+  induction fuel as [|f IH]; intros a b s s1 t t1; [reflexivity|].
+  cbn [invert_loop gcdext_loop]. destruct b as [|y b']; [reflexivity|].
+  destruct (divmod_nz p a (y :: b')) as [q r]. apply IH.
+Qed.
+
+Lemma peq_const_inv p g0 c : 0 < p -> (g0 * c) mod p = 1 -> peq p (scalez c [g0]) [1].
+Proof.
+  intros Hp H. exists [(c * g0) / p]. intros x. cbn [scalez map evalZ].
+  pose proof (Z.div_mod (c * g0) p ltac:(lia)) as D. replace (g0 * c) with (c * g0) in H by ring. lia.
+Qed.
+
+Theorem invert_correct p a b r : prime p -> wf p a -> wf p b -> invert p a b = Ok r ->
+  inr p r /\ exists t, inr p t /\ add p (mul p r a) (mul p t b) = [1].
+Proof.
+  intros Pp Wa Wb H. pose proof (prime_gt1 p Pp) as Hp. unfold invert in H.
+  destruct b as [|y b'] eqn:Eb; [discriminate|]. rewrite <- Eb in *.
+  rewrite (invert_loop_gcdext p _ a b [1] [] [] [1]) in H.
+  destruct (gcdext_loop p (S (length b)) a b [1] [] [] [1]) as [[[g s] t0]|] eqn:El; [|discriminate].
+  apply (gcdext_loop_spec p a b Pp) in El; auto using wf_nil, wf_one.
+  2:{ unfold lin. apply peq_evalZ. intros x. rewrite evalZ_addz, !evalZ_mulz. cbn [evalZ]. ring. }
+  2:{ unfold lin. apply peq_evalZ. intros x. rewrite evalZ_addz, !evalZ_mulz. cbn [evalZ]. ring. }
+  destruct El as (Wg & Ws & Wt & P). unfold lin in P.
+  destruct g as [|g0 [|g1 g']]; try discriminate. inversion H; subst r; clear H.
+  set (c := inv_raw p g0).
+  assert (Hg : (g0 * c) mod p = 1).
+  { apply inv_raw_spec; [exact Pp|]. destruct Wg as [Ig Lg]. inversion Ig as [|? ? R _]; subst.
+    cbn in Lg. rewrite Z.mod_small by lia. exact Lg. }
+  split; [apply scale_mod_inr; lia|]. exists (scale_mod p c t0). split; [apply scale_mod_inr; lia|].
+  apply (canon_peq p); [lia|apply add_wf; apply mul_inr; lia|apply wf_one; lia|].
+  eapply peq_trans; [apply add_peq; [lia|apply mul_inr; lia|apply mul_inr; lia]|].
+  eapply peq_trans; [apply peq_addz; apply mul_peq; lia|].
+  eapply peq_trans; [apply peq_addz; (apply peq_mulz; [apply scale_mod_peq; lia|apply peq_refl])|].
+  eapply peq_trans; [|apply (peq_const_inv p g0 c); [lia|exact Hg]].
+  eapply peq_trans; [|apply peq_scalez, P].
+  apply peq_evalZ. intros z. rewrite evalZ_scalez, !evalZ_addz, !evalZ_mulz, !evalZ_scalez. ring.
+Qed.
+
+(** never out of fuel; ZeroDivisionError exactly when the modulus is zero or gcd(a,b) is not a nonzero constant *)
+Theorem invert_total p a b : prime p -> wf p a -> wf p b -> invert p a b <> NoFuel /\ invert p a b <> ValueErr.
+Proof.
+  intros Pp Wa Wb. unfold invert. destruct b as [|y b'] eqn:Eb; [split; discriminate|]. rewrite <- Eb in *.
+  rewrite (invert_loop_gcdext p _ a b [1] [] [] [1]).
+  pose proof (gcdext_loop_fuel p Pp (S (length b)) a b [1] [] [] [1] Wa Wb ltac:(lia)) as F.
+  destruct (gcdext_loop p (S (length b)) a b [1] [] [] [1]) as [[[g s] t0]|]; [|congruence].
+  destruct g as [|g0 [|g1 g']]; split; discriminate.
+Qed.
+
+(** negative powers: the result is the n-th power (mod b) of a genuine inverse of a modulo b *)
+Theorem powmod_neg_correct p a n b r : prime p -> wf p a -> wf p b -> 1 <= n ->
+  powmod p a (- n) (Some b) = Ok r ->
+  exists a', invert p a b = Ok a' /\ powmod p a' n (Some b) = Ok r /\
+             exists t, inr p t /\ add p (mul p a' a) (mul p t b) = [1].
+Proof.
+  intros Pp Wa Wb Hn H. rewrite powmod_neg_eq in H by exact Hn.
+  destruct (invert p a b) as [a'| | |] eqn:Ei; cbn [bind] in H; try discriminate.
+  exists a'. split; [reflexivity|]. split; [exact H|].
+  destruct (invert_correct p a b a' Pp Wa Wb Ei) as [_ Ht]. exact Ht.
+Qed.
